@@ -54,6 +54,7 @@ class Ctx:
         self.extra = {}
         self.smt_dumps = []
         self.known = self._load_known()
+        self.replay_timeout = 600
 
     # ------------------------------------------------------------------ setup
     def _load_known(self):
@@ -237,12 +238,22 @@ class Ctx:
                 lock = open(os.path.join(VERIF, '.cache', 'replay.lock'), 'w')
                 import fcntl
                 fcntl.flock(lock, fcntl.LOCK_EX)
+                timed_out = False
                 try:
-                    p = subprocess.run(cmd, stdout=subprocess.PIPE, stderr=subprocess.STDOUT, text=True, env=env, timeout=900)
+                    import signal
+                    pr = subprocess.Popen(cmd, stdout=subprocess.PIPE, stderr=subprocess.STDOUT, text=True, env=env, start_new_session=True)
+                    try:
+                        out, _ = pr.communicate(timeout=self.replay_timeout)
+                    except subprocess.TimeoutExpired:
+                        timed_out = True
+                        os.killpg(pr.pid, signal.SIGKILL)
+                        out, _ = pr.communicate()
                 finally:
                     fcntl.flock(lock, fcntl.LOCK_UN)
                     lock.close()
-                out = p.stdout
+                if timed_out:
+                    res['profiles'][prof] = {'reproduced': False, 'timeout': True, 'tail': (out or '')[-600:]}
+                    continue
                 open(os.path.join(VERIF, '.cache', f'last_replay_{self.pid}.log'), 'w').write(out)
                 if 'error[' in out or 'could not compile' in out:
                     res['profiles'][prof] = {'reproduced': False, 'compile_error': True, 'tail': out[-1500:]}
@@ -254,7 +265,7 @@ class Ctx:
         res['reproduced'] = any(v.get('reproduced') for v in res['profiles'].values())
         return res
 
-    def report(self, role, text, model_desc, test_body, uses='', profiles=('dev', 'release'), inject_into='src/lib.rs', role_from_output=False):
+    def report(self, role, text, model_desc, test_body, uses='', profiles=('dev', 'release'), inject_into='src/lib.rs', role_from_output=False, hang_is_violation=False):
         """A solver counterexample: replay natively, then classify as known finding / violation / encoding disagreement.
         With role_from_output the native test itself names the role (`VERIF-REPLAY-VIOLATION <role>`)."""
         for v in self.violations:
@@ -262,6 +273,9 @@ class Ctx:
                 v['count'] = v.get('count', 1) + 1
                 return v
         rp = self.replay_native(role, test_body, uses=uses, profiles=profiles, inject_into=inject_into)
+        if hang_is_violation and any(v.get('timeout') for v in rp['profiles'].values()):
+            rp['reproduced'] = True
+            rp['hang'] = True
         if role_from_output and rp['reproduced']:
             for prof in rp['profiles'].values():
                 mm = re.search(r'VERIF-REPLAY-VIOLATION (\S+)', prof.get('tail', ''))
